@@ -43,8 +43,8 @@ func (b *GoodBox) Set(v int) {
 	b.m["x"] = v
 	b.helper()
 }
-func (b *GoodBox) helper()   { b.n++ } // only called with the lock held
-func (b *GoodBox) Get() int  { b.l.RLock(); defer b.l.RUnlock(); return b.n + b.m["x"] }
+func (b *GoodBox) helper()  { b.n++ } // only called with the lock held
+func (b *GoodBox) Get() int { b.l.RLock(); defer b.l.RUnlock(); return b.n + b.m["x"] }
 func (b *GoodBox) Each(f func(int)) {
 	b.l.RLock()
 	defer b.l.RUnlock()
@@ -154,4 +154,57 @@ func (b *GoodBroker) GoodReopen(ctx context.Context) error {
 		}
 	}
 	return nil
+}
+
+// ---- wait groups held in fields (ctl.wgfield) ----
+
+// BadWG: Add and Wait of a wait group field share no lock.
+type BadWG struct{ wg sync.WaitGroup }
+
+func (b *BadWG) Use()   { b.wg.Add(1); defer b.wg.Done() }
+func (b *BadWG) Drain() { b.wg.Wait() }
+
+// GoodWG: Add and Wait are ordered by a mutex.
+type GoodWG struct {
+	l  sync.Mutex
+	wg sync.WaitGroup
+}
+
+func (g *GoodWG) Use() {
+	g.l.Lock()
+	g.wg.Add(1)
+	g.l.Unlock()
+	defer g.wg.Done()
+}
+
+func (g *GoodWG) Drain() {
+	g.l.Lock()
+	g.wg.Wait()
+	g.l.Unlock()
+}
+
+// ---- recovered panics and the error result (ctl.recover) ----
+
+func work() error { return nil }
+
+// RecoverBadLocal recovers into a local: the result is unnamed, the caller gets nil.
+func RecoverBadLocal() error {
+	var err error
+	defer func() {
+		if r := recover(); r != nil {
+			err = context.Canceled
+		}
+	}()
+	err = work()
+	return err
+}
+
+// RecoverGoodNamed recovers into its named result.
+func RecoverGoodNamed() (err error) {
+	defer func() {
+		if r := recover(); r != nil {
+			err = context.Canceled
+		}
+	}()
+	return work()
 }
